@@ -95,7 +95,8 @@ LEVEL_TEXT = ("Lean 4 theorems over an executable model of Buffer.save_to_undo_s
               "in emacs and vi mode with observed handler bodies, raising handlers, read-only phases, new prompts, "
               "asynchronous completions; search / system-prompt sessions and a two-field form with three / two "
               "buffers; fully modelled key sets) and the property oracle on the real objects")
-LEVEL_NOTE = ("trusted: Lean kernel, axioms propext/Classical.choice/Quot.sound only; the hand-written model "
+LEVEL_NOTE = ("boundary = one KeyProcessor._call_handler call in the theorems, one physical key press in the oracle (fed keys "
+              "belong to the key press that fed them); trusted: Lean kernel, axioms propext/Classical.choice/Quot.sound only; the hand-written model "
               "(validated by the correspondence, not proved equal to the Python); harness/gen_c07.py (prints the "
               "Binding objects it reads; `kind` = does the handler's own source call undo/redo, observed kinds are "
               "compared with it on every session); in the 'keys'/'mkeys' cases handler bodies other than undo/redo/"
@@ -111,7 +112,7 @@ RULE = ("api: every sequence over {save(1), save(0), ins a, ins b, backspace, cu
         "every key sequence up to the tier's length over a small emacs and a small vi alphabet (incl. undo keys, a redo "
         "binding, custom bindings with if_no_repeat / only-on-repeat rules, two bindings that raise after their edit), "
         "every Vi multiple-cursor insert session (c-v, motion, I / A, then every body up to the tier's length over {x, y, "
-        "left, backspace, CPR}, Escape, u u / count u / redo), every sequence with a read-only phase over a Vi alphabet, every sequence with a new prompt (Buffer.reset + "
+        "left, backspace, CPR}, Escape, u u / count u / redo), every emacs shift-selection sequence up to the tier's length over {s-left, s-home, X, Y, backspace, undo, redo} (+ sampled ones with s-right, s-end, Delete, C-w, C-y, Enter, motions that cancel the selection by feeding the key again), every sequence with a read-only phase over a Vi alphabet, every sequence with a new prompt (Buffer.reset + "
         "Application.reset) over an emacs alphabet, sessions with a completer (asynchronous insertions), then seeded "
         "random sessions (<= 40 keys over ~70 emacs / ~60 vi key tokens, single and multi line, with history, macros, "
         "counts, paste, raising bindings, read-only phases, new prompts, with tails of repeated undo/redo); mkeys: every "
@@ -158,7 +159,12 @@ ASSUMPTIONS = ["CPython list append/pop and str equality semantics",
                "tracked buffers of a PromptSession: default, search, system; Enter is never sent to the system prompt (it would "
                "run a shell command); accept / abort of the main buffer end the session",
                "asyncio single-threaded atomicity: an asynchronous completion changes the buffer between two commands, never inside one"]
-PARTIAL_SCOPE = ["Buffer.undo()/redo() on a read-only buffer as SHIPPED drop history entries (known finding, fix proposed): "
+PARTIAL_SCOPE = ["command boundary vs key press: the theorems speak about boundaries of KeyProcessor._call_handler; a handler that "
+                 "feeds further keys (key_processor.feed(..., first=True): shift-selection cancel, c-j, macro replay) makes "
+                 "several commands out of one physical key press -- that every undo result is a state held BETWEEN two key "
+                 "presses is checked by the oracle on the real editor (macro replay exempt), not proved: fed keys are not "
+                 "modelled here (C04 models them)",
+                 "Buffer.undo()/redo() on a read-only buffer as SHIPPED drop history entries (known finding, fix proposed): "
                  "'repeated undo reaches the initial text' and 'redo restores exactly' are proved for sessions without such "
                  "attempts and for the fixed code (undo_reaches_initial_readonly_partial, undoRO_fixed_keeps_history); "
                  "soundness (no invented state, reverse chronological order) is proved for the shipped behaviour too",
@@ -688,6 +694,7 @@ async def _session(case):
         for i in range(nb):
             last[i] = snap(bufs[i])
         tr["docs"] = list(last)
+        tr["kp_states"] = []      # (op index, state of every tracked buffer when that key press starts)
         if case.get("history"):
             buf.load_history_if_not_yet_loaded()
             for _ in range(50):
@@ -697,6 +704,7 @@ async def _session(case):
         for i, (name, data) in enumerate(case["ops"]):
             fed["i"], fed["key"] = i, name
             check_ext()
+            tr["kp_states"].append((i, [snap(b) for b in bufs]))
             if name == "<flush>":
                 try:
                     kp.feed(_Flush)
@@ -767,6 +775,7 @@ async def _session(case):
         else:
             fed["i"], fed["key"] = len(case["ops"]), "<flush>"
             check_ext()
+            tr["kp_states"].append((len(case["ops"]), [snap(b) for b in bufs]))
             try:
                 kp.feed(_Flush)
                 kp.process_keys()
@@ -1024,13 +1033,24 @@ def _buffer_oracle(case, tr, bi):
     chain, exact = [], True      # states the pending redos must restore (top last)
     prev_step = None
     init_text = tr["docs"][bi][0]
+    # states of this buffer between physical key presses (a key press that makes a handler feed further keys with
+    # key_processor.feed(..., first=True) is ONE boundary); sessions that replay a keyboard macro are exempt: there
+    # one key press legitimately runs a whole sequence of commands, each with its own undo step
+    kp_states = [(i_, tuple(sn[bi])) for i_, sn in tr.get("kp_states", [])]
+    kp_pos = 0
+    kp_allowed = {tuple(tr["docs"][bi])}
+    kp_check = not any(r.get("name") in ("call_last_kbd_macro", "_execute_macro") for r in tr["recs"])
     cross_lost = False           # a grouped handler went on in this buffer after a focus change that was no command
     ro_lost = False              # the (known) read-only defect destroyed history in this session
     ext_uncovered = False        # text changed outside a command while no snapshot existed
     is_ro = False
     seg_start = 0                # index of the first record of the current session (after the last restart)
     for i, r in enumerate(recs):
+        while kp_pos < len(kp_states) and kp_states[kp_pos][0] <= r.get("fed", -1):
+            kp_allowed.add(kp_states[kp_pos][1])
+            kp_pos += 1
         if r.get("restart"):
+            kp_allowed = {tuple(r["doc"])}
             log, streak, streak_log, chain, exact, prev_step = [], [], None, [], True, None
             init_text = r["doc"][0]
             ro_lost = ext_uncovered = False
@@ -1074,6 +1094,10 @@ def _buffer_oracle(case, tr, bi):
                         if spost not in log[:-1] and spost != log[-1]:
                             bad("Buffer.undo | restored state never held at an earlier boundary",
                                 "undo invented a state", i)
+                        elif kp_check and not odd and spost not in kp_allowed:
+                            bad("Buffer.undo | restored state never held between two key presses",
+                                "undo restored a state that existed only inside one key press (a handler fed "
+                                "further keys: several commands, one key press)", i)
                         if streak_log is None:
                             streak_log = list(log)
                         streak.append(spost)
@@ -1528,6 +1552,22 @@ def _key_cases(quick, rng):
         odd = len(tup) % 2
         kcases.append({"kind": "keys", "mode": "vi", "multiline": False, "text": "xy" if odd else "",
                        "cur": 1 if odd else 0, "history": [], "ops": _flat([RO_VI_ALPHA[i] for i in tup])})
+    # ---- emacs shift selection: s-left / s-right / s-home / s-end select, a printable character (or Backspace,
+    # Delete, C-w, C-y, Enter) replaces the selection, a motion cancels it by FEEDING the key again (two handler
+    # calls, one key press); then more typing, undo chains, redo mixes
+    shift_core = ["s-left", "s-home", "X", "Y", "c-h", "c-_", "f12"]
+    shift_all = shift_core + ["s-right", "s-end", "delete", "c-w", "c-y", "c-m", "left", "end", "c-x_c-u", "c-k"]
+    maxlen = 3 if quick else 4
+    tups = [t for n in range(2, maxlen + 1) for t in itertools.product(shift_core, repeat=n)
+            if "s-left" in t or "s-home" in t]
+    tups += [tuple(rng.choice(shift_all) for _ in range(rng.choice([4, 5, 6, 8]))) for _ in range(80 if quick else 800)]
+    for idx, tup in enumerate(tups):
+        text = ["hello world", "ab\ncd", "x"][idx % 3]
+        ops = []
+        for k in tup:
+            ops += [["c-x", None], ["c-u", None]] if k == "c-x_c-u" else _flat([k])
+        kcases.append({"kind": "keys", "mode": "emacs", "multiline": idx % 3 == 1, "text": text,
+                       "cur": len(text) if idx % 2 else max(0, len(text) - 2), "history": [], "ops": ops})
     # ---- Vi multiple-cursor insert mode (c-v, motion, I / A): the typed characters go to the grouped binding
     # `_insert_text_multiple_cursors`; runs, runs with a motion / Backspace / CPR inside, two runs, then Escape, u, u
     body_alpha = ["x", "y", "left", "c-h", ["<cpr>", None]]
